@@ -28,7 +28,7 @@ RULE = (
 )
 ASSUMPTIONS = [
     "bound: numeric style attributes are dyadic (multiples of 0.25/0.5) so 32-bit storage is exact; border widths have <= 2 decimals as documented",
-    "bound: strokes are drawn inside the table; on tables with merged ranges (a third of the runs) a visible-side model applies: a side is visible unless its edge lies strictly inside the cell's merged range, calls addressing a hidden side are ignored as documented; ranges are merged only before anything is drawn; structural edits are not mixed with strokes (unspecified)",
+    "bound: strokes are drawn inside the table; on tables with merged ranges (a third of the runs) a visible-side model applies: a side is visible unless its edge lies strictly inside the cell's merged range, calls addressing a hidden side are ignored as documented; ranges are merged before and after strokes are drawn and styles applied; structural edits are not mixed with strokes (unspecified)",
     "mirrored, not judged: a plain write() to a styled cell replaces the cell object and its style with it",
     "style objects applied after a restart are ones created after that restart (what a reloaded custom style carries is not specified)",
 ]
@@ -169,6 +169,8 @@ def gen(seed: int, tier: str, idx=None):
         weights["border"] = 0
     if arm == "borders":
         weights["add_style"] = weights["set_style"] = weights["mutate_style"] = 0
+    if cfg.get("strokes_on_merged"):
+        weights["merge"] = 2.5  # further ranges merged AFTER strokes were drawn and styles applied
     names, wts = list(weights), list(weights.values())
     if arm != "borders":
         g.emit({"op": "add_style", "d": 0, "attrs": gen_attrs(rng), "name": rng.choice([None, "Red Text", "S1"])})
@@ -205,6 +207,10 @@ def gen(seed: int, tier: str, idx=None):
                     g.emit({"op": "set_style", "d": 0, "s": 0, "t": t, "r": r0, "c": (c0 + 1) % tm.ncols, "style": len(names_now) - 1, "via": "set"})
             else:
                 g.emit({"op": "add_style", "d": 0, "attrs": gen_attrs(rng), "name": rng.choice([None, None, "Bold " + str(rng.randrange(4)), "Ünï " + str(rng.randrange(3)), rng.choice(NEAR_NAMES)])})
+        elif kind == "merge":
+            from dsim.profiles.merge import gen_rect
+
+            g.emit({"op": "merge", "d": 0, "s": 0, "t": t, "rects": [gen_rect(g, tm, rng)], "as_list": rng.random() < 0.3})
         elif kind == "mutate_style":
             if m.styles:
                 var = gen_variant(rng, {})
